@@ -141,7 +141,7 @@ theorem ev_wlog_some {x : Nat} {e : EP} {g : Ghost} {k : Nat} {o : Obj} (h : obj
 
 /-- `Connect` reaches the accepting side: requested → half-open.  The accepting side's sending
     direction starts in `Link.init` (credit = the window the requester advertised). -/
-theorem phase_connect {p : PS} (h : Inv p) (x W port : Nat) (host : Bytes) (rest : List Msg) {lk' : List Nat}
+theorem phase_connect {p : PS} (h : InvCore p) (x W port : Nat) (host : Bytes) (rest : List Msg) {lk' : List Nat}
     (hba : p.ba = .frame (.connect x W port host) :: rest)
     (r : Requested x (ev x p.b p.gb) (ev x p.a p.ga) (fl x (pathBA p)) (fl x (pathAB p))) :
     Phase x { p with a := (processFrame p.a (.connect x W port host) false).1, ba := rest, linked := lk' } := by
@@ -191,7 +191,7 @@ theorem phase_connect {p : PS} (h : Inv p) (x W port : Nat) (host : Bytes) (rest
 /-- `Acknowledge` reaches the requesting side: half-open → linked.  The requester's sending
     direction starts in `Link.init` with the acceptor's window as credit; the acceptor's direction
     continues from where it is. -/
-theorem phase_ack {p : PS} (h : Inv p) (x n : Nat) (rest : List Msg)
+theorem phase_ack {p : PS} (h : InvCore p) (x n : Nat) (rest : List Msg)
     (hba : p.ba = .frame (.acknowledge x n) :: rest)
     (r : HalfOpen x (ev x p.a p.ga) (ev x p.b p.gb) (fl x (pathAB p)) (fl x (pathBA p))) :
     Linked x (ev x (processFrame p.a (.acknowledge x n) false).1 p.ga) (ev x p.b p.gb)
@@ -506,7 +506,7 @@ theorem wake_fields (o : Obj) :
 
 /-- A frame for a live flow at an endpoint that holds it (the object-local cases): the link model's
     `deliver` / `deliverAck`. -/
-theorem live_recv_est {p : PS} (h : Inv p) (f : Frame) (x i : Nat) (oA : Obj) (rest : List Msg) {lk' : List Nat}
+theorem live_recv_est {p : PS} (h : InvCore p) (f : Frame) (x i : Nat) (oA : Obj) (rest : List Msg) {lk' : List Nat}
     (hid : f.id = x) (hflow : Msg.flow? (.frame f) = some x) (hba : p.ba = .frame f :: rest)
     (hnb : ∀ a b c d, f ≠ .bind a b c d)
     (hs : lookup p.a.flows x = some (.established i)) (ho : p.a.objs[i]? = some oA) (hfid : oA.fid = x)
@@ -616,7 +616,7 @@ theorem live_recv_est {p : PS} (h : Inv p) (f : Frame) (x i : Nat) (oA : Obj) (r
     · subst hf; simp [Msg.flow?] at hflow
 
 /-- A frame for a live flow at an endpoint that has released it: nothing but a `Reset` reply. -/
-theorem live_recv_none {p : PS} (h : Inv p) (f : Frame) (x i : Nat) (oA : Obj) (rest : List Msg) {lk' : List Nat}
+theorem live_recv_none {p : PS} (h : InvCore p) (f : Frame) (x i : Nat) (oA : Obj) (rest : List Msg) {lk' : List Nat}
     (hid : f.id = x) (hflow : Msg.flow? (.frame f) = some x) (hba : p.ba = .frame f :: rest)
     (hs : lookup p.a.flows x = none) (ho : p.a.objs[i]? = some oA) (hfid : oA.fid = x)
     (hclosedA : oA.finishSent = true ∧ oA.senderAlive = false)
@@ -694,10 +694,10 @@ theorem inj_linked {x : Nat} {va vb : EV} {fab fba : List Msg} (h : Linked x va 
   Or.inr (Or.inr (Or.inr (Or.inr (Or.inr (Or.inl h)))))
 
 /-- The receive loop processes one frame (not a `Bind`). -/
-theorem inv_recv {p : PS} (h : Inv p) (f : Frame) (rest : List Msg) (hba : p.ba = .frame f :: rest)
+theorem inv_recv {p : PS} (h : InvCore p) (f : Frame) (rest : List Msg) (hba : p.ba = .frame f :: rest)
     (hnb : ∀ a b c d, f ≠ .bind a b c d) :
-    Inv { p with a := (processFrame p.a f false).1, ba := rest,
-                 linked := match completes p f with | some x => x :: p.linked | none => p.linked } := by
+    InvCore { p with a := (processFrame p.a f false).1, ba := rest,
+                     linked := match completes p f with | some x => x :: p.linked | none => p.linked } := by
   have hgf : ∀ {Y : Nat → Prop}, Eff Y p.a (processFrame p.a f false).1 → GhostFresh (processFrame p.a f false).1 p.ga :=
     fun s k hk => h.ghA k (Nat.le_trans s.len hk)
   cases hfl : Msg.flow? (.frame f) with
